@@ -38,7 +38,7 @@ IMPORTS = 'Require Import SF.Prelude SF.PySlice SF.Value SF.Group SF.GroupVal SF
 IMPORTS_SPEC_ONLY = 'Require Import SF.Prelude SF.PySlice SF.Value SF.Group SF.GroupVal SF.WindowSpec.'
 RULE = ('api strata: public iter_group_items / iter_group_labels_items / iter_group*.apply / iter_window_items calls on generated Series and Frames -- exhaustive value sequences of length <= 4 over 3 values for Series, '
         'every block layout of frames with <= 3 columns (thorough: <= 4), both axes, element/list/slice keys of 1-3 positions, key dtypes int/str/bool/float/object(orderable, mixed, colliding str()), flat and hierarchical axes, '
-        'one group / all-distinct / duplicated keys; windows: the grid n<=6, size<=4, step<=3, shifts in [-3,3], increment in [-1,1], window_sized on/off (thorough: complete, quick: boundary + random sample) on Series (Series and array windows), plus Frames on both axes; longer axes (20-48 positions, 2-3 distinct keys) on the sort path so that an unstable sort shows; '
+        'one group / all-distinct / duplicated keys; windows: the grid n<=6, size<=4, step<=3, shifts in [-3,3], increment in [-1,1], window_sized on/off (thorough: complete, quick: boundary + random sample) on Series (Series and array windows), plus Frames on both axes; longer axes (17-60 positions, 2-4 interleaved keys of dtype int64/float64/bool/str/int16/uint8, both axes) on the sort path so that an unstable sort shows as a changed order inside a group; a second window grid n<=9, size<=3, start_shift down to -(n+2), label_shift up to n+2 (thorough: complete; quick: every run samples the anchors lying wholly left of the container that still have a label); '
         'kernel stratum: util.array_to_groups_and_locations called directly; malformed stream: absent key, invalid axis, size<=0, step<0. '
         'A group case is non-trivial when it has >= 2 groups and some group with >= 2 members; a window case when at least one window is yielded and at least one anchor is rejected or clipped; '
         'distinct = distinct (call, input, parameters).')
@@ -713,7 +713,10 @@ def choose_key(ctx, n_positions):
         return 'element', [ctx.rng.randrange(n_positions)]
     if r < 0.8:
         k = ctx.rng.randint(1, min(3, n_positions))
-        return 'list', ctx.rng.sample(range(n_positions), k)
+        positions = ctx.rng.sample(range(n_positions), k)
+        if ctx.rng.random() < 0.15:
+            positions.append(ctx.rng.choice(positions))     # a REPEATED key label: the key tuple repeats that cell
+        return 'list', positions
     a = ctx.rng.randrange(n_positions)
     b = ctx.rng.randint(a, min(n_positions - 1, a + 2))
     return 'slice', list(range(a, b + 1))
@@ -745,31 +748,52 @@ def frame_group_cases(ctx):
         yield frame_group_case(ctx, spec, layout, axis, keykind, positions, 'api:frame.iter_group.apply', apply_=True)
 
 
+_LONG_DTYPES = {     # key dtype -> (values to draw keys from, dtype, identity row for axis 1 or None)
+    'int64': ([3, 1, 2, 7], np.int64), 'float64': ([2.5, 0.5, 1.0, 7.25], np.float64), 'bool': ([True, False], bool),
+    'str': (['b', 'a', 'ab', 'c'], '<U2'), 'int16': ([3, 1, 2, 7], np.int16), 'uint8': ([3, 1, 2, 7], np.uint8),
+}
+
+
+def interleaved_keys(rng, pool, n):
+    '''n keys over `pool`, every key occurring several times, drawn pseudo-randomly (neither sorted nor regularly
+    alternating), so that a sort which is not stable reorders the members of some group'''
+    while True:
+        keys = [rng.choice(pool) for _ in range(n)]
+        counts = [keys.count(k) for k in pool]
+        runs = sum(1 for i in range(1, n) if keys[i] != keys[i - 1])
+        if min(counts) >= 3 and runs >= n // 3 and keys != sorted(keys) and keys != sorted(keys, reverse=True):
+            return keys
+
+
 def long_group_cases(ctx):
-    '''longer axes with few distinct keys: order inside the groups depends on the sort being stable
-    (NumPy's unstable kinds only show it beyond 16 elements)'''
+    '''the sort path (single element key, flat axes, non-object key dtype) on longer axes with few distinct,
+    interleaved keys: the order INSIDE each group is the original order only if the sort is stable; NumPy's unstable
+    kinds show it from ~8 positions for int64/float64 and from 17 for the other dtypes (insertion sort below 16)'''
     import static_frame as sf
-    for _ in range(ctx.n(8, 60)):
-        n = ctx.rng.randint(20, 48)
-        kind = ctx.rng.choice(['int', 'str', 'float', 'bool'])
-        k = ctx.rng.randint(2, 3) if kind != 'bool' else 2
-        pool = _VALS[kind][:k]
-        keyv = [ctx.rng.choice(pool) for _ in range(n)]
-        arrays = [make_array(kind, keyv), np.arange(n, dtype=np.int64)]
-        axis = ctx.rng.choice([0, 0, 1])
+    kinds = list(_LONG_DTYPES)
+    for i in range(ctx.n(16, 120)):
+        kind = kinds[i % 4] if i < 8 else ctx.rng.choice(kinds)       # int64, float64, bool, str on both axes first
+        axis = (i // 4) % 2 if i < 8 else ctx.rng.choice([0, 1])
+        vals, dt = _LONG_DTYPES[kind]
+        n = ctx.rng.randint(17, 60)
+        k = 2 if kind == 'bool' else ctx.rng.randint(2, 4)
+        keyv = interleaved_keys(ctx.rng, ctx.rng.sample(vals, k), n)
+        fam_kind = {'int64': 'int', 'int16': 'int', 'uint8': 'int', 'float64': 'float', 'bool': 'bool', 'str': 'str'}[kind]
         if axis == 0:
-            spec = {'kinds': [kind, 'int'], 'cols': [keyv, list(range(n))], 'arrays': arrays, 'dtypes': [a.dtype for a in arrays],
-                    'index_labels': [f'r{i}' for i in range(n)], 'col_labels': ['k', 'id'], 'index': sf.Index([f'r{i}' for i in range(n)]),
-                    'columns': sf.Index(['k', 'id']), 'layouts': list(zoo.layouts_for([a.dtype for a in arrays])), 'mode': 'dup',
-                    'hier_index': False, 'hier_columns': False}
-        else:   # group n int columns by the first of two rows
-            ik = [ctx.rng.choice([1, 2, 3]) for _ in range(n)]
-            arrays = [np.array([ik[j], j], dtype=np.int64) for j in range(n)]
-            spec = {'kinds': ['int'] * n, 'cols': [[ik[j], j] for j in range(n)], 'arrays': arrays, 'dtypes': [a.dtype for a in arrays],
-                    'index_labels': ['k', 'id'], 'col_labels': [f'c{j}' for j in range(n)], 'index': sf.Index(['k', 'id']),
-                    'columns': sf.Index([f'c{j}' for j in range(n)]), 'layouts': [tuple((1, False) for _ in range(n)), ((n, True),)], 'mode': 'dup',
+            arrays = [np.array(keyv, dtype=dt), np.arange(n, dtype=np.int64)]
+            labels = [f'r{j}' for j in range(n)]
+            spec = {'kinds': [fam_kind, 'int'], 'cols': [keyv, list(range(n))], 'arrays': arrays, 'dtypes': [a.dtype for a in arrays],
+                    'index_labels': labels, 'col_labels': ['k', 'id'], 'index': sf.Index(labels), 'columns': sf.Index(['k', 'id']),
+                    'layouts': list(zoo.layouts_for([a.dtype for a in arrays])), 'mode': 'dup', 'hier_index': False, 'hier_columns': False}
+        else:   # n one-cell columns of the key dtype grouped by their only row; the column label is the identity
+            arrays = [np.array([keyv[j]], dtype=dt) for j in range(n)]
+            labels = [f'c{j}' for j in range(n)]
+            spec = {'kinds': [fam_kind] * n, 'cols': [[keyv[j]] for j in range(n)], 'arrays': arrays, 'dtypes': [a.dtype for a in arrays],
+                    'index_labels': ['k'], 'col_labels': labels, 'index': sf.Index(['k']), 'columns': sf.Index(labels),
+                    'layouts': [tuple((1, False) for _ in range(n)), ((n, True),), tuple((1, True) for _ in range(n))], 'mode': 'dup',
                     'hier_index': False, 'hier_columns': False}
         layout = ctx.rng.choice(spec['layouts'])
+        ctx.count(f'long:{kind}', f'long:axis{axis}')
         yield frame_group_case(ctx, spec, layout, axis, 'element', [0], 'api:frame.iter_group_items[long]')
 
 
@@ -928,8 +952,31 @@ def window_grid():
                                               start_shift=start_shift, size_increment=inc)
 
 
+def window_grid_wide():
+    '''windows that start far left of the container and are labelled far right of their right edge (and the mirror
+    image is in the main grid): start_shift down to -(n+2), label_shift up to n+2, n <= 9, size <= 3'''
+    for n in range(0, 10):
+        for size in range(1, 4):
+            for step in (1, 2):
+                for start_shift in range(-(n + 2), 1):
+                    for label_shift in range(0, n + 3):
+                        for sized in (True, False):
+                            yield n, dict(size=size, step=step, window_sized=sized, label_shift=label_shift,
+                                          start_shift=start_shift, size_increment=0)
+
+
 def window_cases(ctx):
     import static_frame as sf
+    wide = list(window_grid_wide())
+    if ctx.tier == 'quick':
+        # anchors lying completely left of the container whose label position exists: the window must be EMPTY
+        left_out = [g for g in wide if g[1]['start_shift'] + g[1]['size'] - 1 < -1
+                    and 0 <= g[1]['start_shift'] + g[1]['size'] - 1 + g[1]['label_shift'] < g[0]]
+        wide = ctx.rng.sample(left_out, min(len(left_out), ctx.n(60, 60))) + ctx.rng.sample(wide, ctx.n(90, 90))
+    wseries = {n: sf.Series(np.arange(n) * 10, index=sf.Index([chr(97 + i) for i in range(n)]) if n else sf.Index(())) for n in range(0, 10)}
+    for n, p in wide:
+        yield window_case(ctx, wseries[n], 0, p, 'api:series.iter_window_items[wide]',
+                          {'call': 'sf.Series(range(n)*10, index=a,b,c..).iter_window_items(**params)', 'n': n})
     grid = list(window_grid())
     if ctx.tier == 'quick':
         keep = [g for g in grid if g[0] in (0, 6) and g[1]['size'] in (1, 4) and g[1]['step'] in (0, 1) and abs(g[1]['start_shift']) == 3
